@@ -176,3 +176,7 @@ func vBlockUntil(f func() bool) {
 }
 
 func vNote(s string) { fmt.Println("NOTE:", s) }
+
+func vJSONEqual(a, b []byte) bool  { return string(a) == string(b) }
+func vJSONTruncate(b []byte) []byte { return b[:len(b)/2] }
+func vJSONString(b []byte) string   { return string(b) }
